@@ -22,6 +22,9 @@ PAYLOADS = [
     ("percent_brace", b"%} and %{"), ("percent", b"%% %top %option"), ("high", b"caf\xe9 \xff\x80"),
     ("brackets", b"a[b[i]] c[d]"), ("hash", b"#define X 1"), ("backslash", b"a\\b\\\\c"),
     ("braces", b"{ } }{"), ("plain", b"hello"),
+    # an apostrophe that is not a character constant, then m4 quotes glued to other text
+    ("squote_idx", b"don't read tab[idx[0]] before it is set"), ("squote_m4open", b"it's a[[b"),
+    ("charconsts", b"'[' ']' '\\'' x]]y [[z"), ("dquote_m4", b"\"]]\" \"[[\" w]]"),
 ]
 # payloads that are valid C expressions (checked as stringified code too)
 CODE_PAYLOADS = [("idx", "a[b[i]]"), ("idx2", "x[[1]]".replace("[[1]]", "[y[1]]")), ("call", "f(g(1), 2)"),
@@ -46,6 +49,17 @@ def comment_text(b):
     return t.decode("latin1")
 
 
+def comment_line(rng, indent, pl, region=""):
+    # flex's action scanner knows /* */ comments, strings and character constants, not //
+    # comments (the manual promises the former only): in regions where it counts braces a //
+    # comment carries only bytes that do not open something for that scanner
+    inert = not any(x in pl for x in (b'"', b"{", b"}", b"/*", b"*/"))
+    verbatim_region = region in ("top", "sect1_block", "sect3")
+    if rng.chance(40) and not pl.endswith(b"\\") and b"??/" not in pl and (inert or verbatim_region):
+        return "%s// %s" % (indent, pl.decode("latin1"))
+    return "%s/* %s */" % (indent, comment_text(pl))
+
+
 class Spec:
     def __init__(self, rng, noline=False):
         self.rng = rng
@@ -53,6 +67,7 @@ class Spec:
         self.tracers = []      # dict(id, line, payload, region, kind)
         self.nid = 0
         self.noline = noline
+        self.spans = []        # (region, first line, last line): user code copied verbatim
 
     def add(self, text=""):
         for l in text.split("\n"):
@@ -64,6 +79,9 @@ class Spec:
     def pick(self, region=""):
         while True:
             name, pl = self.rng.choice(PAYLOADS)
+            if self.rng.chance(30):
+                n2, p2 = self.rng.choice(PAYLOADS)
+                name, pl = name + "+" + n2, pl + self.rng.choice([b" ", b"", b" x"]) + p2
             # %top{ } is delimited by counting braces (the manual documents nothing more), and a
             # %{ action ends at the next %} wherever it stands: keep those bytes out of there
             if region == "top" and (b"{" in pl or b"}" in pl):
@@ -78,7 +96,7 @@ class Spec:
         i = self.nid
         self.nid += 1
         if self.rng.chance(40):
-            self.add("%s/* %s */" % (indent, comment_text(pl)))
+            self.add(comment_line(self.rng, indent, pl, region))
         ln = self.lineno()
         self.add("%sstatic const struct vt vt_%d = { %d, __LINE__, __FILE__, %s, %d };" % (
             indent, i, i, c_string(pl), len(pl)))
@@ -103,7 +121,7 @@ class Spec:
         self.nid += 1
         txt = ""
         if self.rng.chance(30) and not oneline:
-            self.add("%s/* %s */" % (indent, comment_text(pl)))
+            self.add(comment_line(self.rng, indent, pl, region))
         ln = self.lineno()
         s = "vt_report(%d, __LINE__, __FILE__, %s, %d);" % (i, c_string(pl), len(pl))
         self.tracers.append({"id": i, "line": ln, "payload": pl, "region": region, "kind": name,
@@ -143,20 +161,52 @@ def make_spec(rng, noline):
         S.add("#define VSTR2(...) #__VA_ARGS__")
         S.add("#define VSTR(...) VSTR2(__VA_ARGS__)")
     S.add("static void vt_report(int id, int line, const char *file, const char *p, int n);")
+    a = S.lineno()
     for _ in range(R.rint(1, 3)):
         S.decl_tracer("sect1_block")
         S.blanks()
+    S.spans.append(("sect1_block", a, S.lineno() - 1))
     S.add("%}")
     S.blanks()
-    S.add("%option noyywrap")
+    # the rest of the definitions section in a seeded order: more %{ blocks (with runs of
+    # blank lines), lines of indented code (adjacent and separated), definitions, comments
+    items = [("opt",), ("xc",), ("name",)]
     if R.chance(50):
-        S.add("/* a comment in the definitions section: %s */" % comment_text(R.choice(PAYLOADS)[1]))
-    if R.chance(60):
-        # indented code in section 1
-        for _ in range(R.rint(1, 2)):
-            S.decl_tracer("sect1_indented", "    ")
-    S.add("%x XC")
-    S.add("NAME  [a-z]+")
+        items.append(("comment",))
+    for _ in range(R.rint(0, 2)):
+        items.append(("indented", R.rint(1, 2)))
+    for _ in range(R.rint(0, 2)):
+        items.append(("block",))
+    for _ in range(R.rint(0, 2)):
+        items.append(("blank",))
+    if R.chance(30):
+        items.append(("def2",))
+    R.shuffle(items)
+    for it in items:
+        if it[0] == "opt":
+            S.add("%option noyywrap")
+        elif it[0] == "xc":
+            S.add("%x XC")
+        elif it[0] == "name":
+            S.add("NAME  [a-z]+")
+        elif it[0] == "def2":
+            S.add("DIG   [0-9]")
+        elif it[0] == "comment":
+            S.add("/* a comment in the definitions section: %s */" % comment_text(R.choice(PAYLOADS)[1]))
+        elif it[0] == "indented":
+            for _ in range(it[1]):
+                S.decl_tracer("sect1_indented", "    ")
+        elif it[0] == "blank":
+            S.blanks()
+        else:
+            S.add("%{")
+            a = S.lineno()
+            for _ in range(R.rint(1, 2)):
+                S.decl_tracer("sect1_block")
+                for _ in range(R.below(4)):
+                    S.add("")
+            S.spans.append(("sect1_block", a, S.lineno() - 1))
+            S.add("%}")
     S.blanks()
     S.add("%%")
     # ---- section 2 prolog
@@ -233,6 +283,7 @@ def make_spec(rng, noline):
     S.add("\t}")
     S.add("%%")
     # ---- section 3
+    a3 = S.lineno()
     S.add("static void vt_report(int id, int line, const char *file, const char *p, int n) {")
     S.add("\tint i; printf(\"T %d %d %s \", id, line, file);")
     S.add("\tfor (i = 0; i < n; ++i) printf(\"%02x\", (unsigned char) p[i]);")
@@ -240,7 +291,8 @@ def make_spec(rng, noline):
     S.add("}")
     for _ in range(R.rint(1, 3)):
         S.decl_tracer("sect3")
-        S.blanks()
+        for _ in range(R.below(4)):
+            S.add("")
     S.add("int main(void) {")
     S.add("\tconst struct vt *all[] = { %s };" % ", ".join(
         "&vt_%d" % t["id"] for t in S.tracers if t["static"]))
@@ -251,6 +303,7 @@ def make_spec(rng, noline):
     S.add("\twhile (yylex() > 0) ;")
     S.add("\treturn 0;")
     S.add("}")
+    S.spans.append(("sect3", a3, S.lineno() - 1))
     text = "\n".join(S.lines) + "\n"
     inp = " ".join(words) + "\n"
     return S, text, inp
@@ -290,9 +343,11 @@ def worker(args):
     flex = chk.flex("san")
     d = os.path.join(chk.scratch.path, "c%d" % i)
     os.makedirs(d, exist_ok=True)
-    spec = os.path.join(d, "t.l")
+    # file names are text too: names that are m4 macros, flex macros, or contain odd bytes
+    base = ["t", "t", "M4_YY_NOOP", "m4_dnl", "yyless m4_define", "t-$1`x'", "M4_MODE_PREFIX"][i % 7]
+    spec = os.path.join(d, base + ".l")
     util.write(spec, text.encode("latin1"))
-    out = os.path.join(d, "t.c")
+    out = os.path.join(d, ["t.c", "m4_divert.c", "M4_YY_NOOP.c"][i % 3])
     res = {"i": i, "problems": [], "feats": {}, "tracers": len(S.tracers), "spec": spec}
 
     def feat(k, n=1):
@@ -317,6 +372,17 @@ def worker(args):
     feat("linedirs_infile", n_in)
     if noline:
         feat("noline_specs")
+    gen_bytes = util.read(out, True)
+    src_lines = text.encode("latin1").split(b"\n")
+    for region, a, b_ in S.spans:
+        blk = b"\n".join(src_lines[a - 1:b_]) + b"\n"
+        if blk not in gen_bytes:
+            res["problems"].append(("verbatim", "lines %d-%d of the specification (%s, %d bytes) do not "
+                                    "appear unchanged in the generated file" % (a, b_, region, len(blk)), None))
+        else:
+            feat("verbatim_blocks")
+            if b"\n\n\n" in blk:
+                feat("verbatim_blocks_with_blank_runs")
     exe = os.path.join(d, "t.exe")
     c = util.run(["gcc", "-w", "-o", exe, out], cwd=d, env=util.clean_env(), timeout=120)
     if c.rc != 0:
@@ -345,10 +411,11 @@ def worker(args):
             res["problems"].append(("payload", "tracer %d in %s: payload %r arrived as %r" % (
                 t["id"], t["region"], t["payload"], bytes.fromhex(hx)), None))
         if not noline:
-            if line != t["line"] or os.path.basename(fn) != "t.l":
-                res["problems"].append(("line", "tracer %d in %s (%s): written on line %d of t.l, "
+            if line != t["line"] or os.path.basename(fn) != os.path.basename(spec):
+                res["problems"].append(("line", "tracer %d in %s (%s): written on line %d of %s, "
                                         "compiler saw %s:%d" % (t["id"], t["region"], t["kind"],
-                                                                t["line"], fn, line), None))
+                                                                t["line"], os.path.basename(spec), fn, line),
+                                        None))
         feat("tracers_checked")
     res["sample"] = {"regions": sorted(set(t["region"] for t in S.tracers)), "tracers": len(S.tracers),
                      "first_lines": text.split("\n")[:12]}
@@ -379,6 +446,8 @@ def run(pid, tier):
         chk.require("payload:" + name)
     chk.require("linedirs_outfile", 20)
     chk.require("noline_specs", 2)
+    chk.require("verbatim_blocks", 50)
+    chk.require("verbatim_blocks_with_blank_runs", 5)
     return chk
 
 
